@@ -2,12 +2,17 @@
    PARTIAL.  Proved on the models (no new definitions): within-tuple differences and every squared
    learned distance are translation invariant (so are the documented NCA / MLKR / LMNN kernels);
    replacing a pair difference v by -v leaves ITML's projection step, MMC's similarity budget and
-   LSML's hinge terms unchanged (SDML: C13Proof.wsq_neg_one).  NOT proved: sample-permutation,
-   rotation and scaling equivariance of the closed-form learners and invariance of the optimum returned
-   by external optimisers: these relations are checked on the real code by props/c19.py (bit-exact
+   LSML's hinge terms unchanged (SDML: C13Proof.wsq_neg_one).  PROVED as well (C19_covariance): the sample covariance
+   that Covariance inverts (and RCA / the 'covariance' priors are built from) is invariant under listing the
+   samples in another order and under translation, is multiplied by c^2 when all features are multiplied by c,
+   and is equivariant under every linear map of the features (rotations Q: cov(X Q^T) = Q cov(X) Q^T), all stated
+   along arbitrary directions.  NOT proved: that the (pseudo-)inverse and the whitening of RCA inherit these
+   relations (eigen-solvers are oracles), rotation equivariance of LFDA / LMNN / ITML / LSML / MMC and invariance
+   of the optimum returned by external optimisers: these relations are checked on the real code by props/c19.py (bit-exact
    where the implementation only touches differences, toleranced otherwise). *)
 From Coq Require Import List Reals.
-From ML Require Import Ops Vec VecR MatR ITML MMC LSML Objectives C11Proof C19Proof.
+From Coq Require Import Permutation Lra.
+From ML Require Import Ops Vec VecR MatR LinAlg ITML MMC LSML Objectives C11Proof C19Proof CovProof.
 Import ListNotations.
 Open Scope R_scope.
 
@@ -30,3 +35,30 @@ Proof.
         (conj itml_update_swap (conj budget_swap lsml_hinge_swap))))).
 Qed.
 Print Assumptions C19_partial.
+
+(* the covariance matrix of the closed-form learners *)
+Definition C19_covariance_statement : Prop :=
+  (* its quadratic form along x is the normalised sum of squared deviations of the projected samples *)
+  (forall d ddof (X : Rm) (x : Rv), X <> [] -> Forall (wfvR d) X -> wfvR d x ->
+     quadformR (covR ddof X) x = ssd (mvmulR X x) / INR (length X - ddof)) /\
+  (* order of the samples *)
+  (forall d ddof (X X' : Rm) (x : Rv), X <> [] -> Forall (wfvR d) X -> wfvR d x -> Permutation X X' ->
+     quadformR (covR ddof X') x = quadformR (covR ddof X) x) /\
+  (* translation by t *)
+  (forall d ddof (X : Rm) (t x : Rv), X <> [] -> Forall (wfvR d) X -> wfvR d x -> wfvR d t ->
+     quadformR (covR ddof (map (fun r => vaddR r t) X)) x = quadformR (covR ddof X) x) /\
+  (* scaling of all features by c *)
+  (forall d ddof (X : Rm) (c : R) (x : Rv), X <> [] -> Forall (wfvR d) X -> wfvR d x ->
+     quadformR (covR ddof (map (vscaleR c) X)) x = c ^ 2 * quadformR (covR ddof X) x) /\
+  (* any linear map Q of the features, rotations in particular *)
+  (forall d ddof (X Q : Rm) (x : Rv), X <> [] -> Forall (wfvR d) X -> wfvR d x ->
+     Q <> [] -> length Q = d -> Forall (wfvR d) Q ->
+     quadformR (covR ddof (map (mvmulR Q) X)) x = quadformR (covR ddof X) (mvmulR (transpR Q) x)).
+
+Theorem C19_covariance : C19_covariance_statement.
+Proof. exact (conj cov_quadform (conj cov_permutation (conj cov_translation (conj cov_scaling cov_linear_map)))). Qed.
+Print Assumptions C19_covariance.
+
+Example C19_covariance_nonvacuous :
+  quadformR (covR 1 [[0; 0]; [2; 0]; [4; 0]]) [1; 0] = 4.
+Proof. unfold quadform, cov, center, colmeans, mmulg, transp. cbn. lra. Qed.
